@@ -449,6 +449,57 @@ class MpHistory(History):
         if r.chance(3, 4):
             self.gen(r.chance(*self.APPLY))
 
+    def onchain(self):
+        """re-announce payloads that the active chain already contains, at all ages: right away, after the VBK tip moved
+        k blocks for k around and well beyond the VBK settlement interval, after a VBK reorg that leaves the
+        containing block on a losing fork; then (sometimes) cleanUp / generate"""
+        g, r = self.g, self.r
+        tip = self.tip()
+        anc = [a for a in g.ancestry(tip) if a != "a0"]
+        pool = [x for a in anc for x in g.alt[a]["vtbs"]] * 3 + [x for a in anc for x in g.alt[a]["atvs"]] + \
+               [x for a in anc for x in g.alt[a]["ctx"][-1:]]
+        if not pool:
+            a = g.honest_block(tip, n_atv=1, n_vtb=1, empty_chance=(0, 1))
+            self.show(a)
+            self.on("set", a)
+            return
+        settle = g.cfg.get("vbk_settle", 400)
+        mode = r.below(5)
+        if mode in (1, 2) and settle <= 40:
+            # age: the VBK tip of the instance moves on
+            k = r.choice([1, settle - 1, settle, settle + 1, 2 * settle + 1])
+            for _ in range(min(k, 30)):
+                g.mine_vbk()
+            a = g.new_alt(tip)
+            g.set_pd(a, extra_ctx=[g.vtip])
+            self.show(a)
+            self.on("set", a)
+            self.stat("onchain_aged")
+        elif mode == 3:
+            # a longer VBK fork from a few blocks below the tip: the old branch (and what it contains) loses
+            p = g.vtip
+            depth = r.range(1, 4)
+            for _ in range(depth):
+                if g.vbk[p]["parent"] is not None:
+                    p = g.vbk[p]["parent"]
+            for _ in range(depth + 2):
+                p = g.mine_vbk(p)
+            a = g.new_alt(tip)
+            g.set_pd(a, extra_ctx=[p])
+            self.show(a)
+            self.on("set", a)
+            self.stat("onchain_vbk_fork")
+        for _ in range(r.range(1, 3)):
+            self.submit(r.choice(pool))
+        self.stat("onchain_resubmit")
+        k = r.below(4)
+        if k == 0:
+            self.on("cleanup")
+        elif k == 1:
+            self.gen(r.chance(*self.APPLY))
+        elif k == 2:
+            self.on("rmall", r.choice(anc[-4:]))
+
     # ---- tree changes
     def grow(self):
         """ALT block(s) through the World: honest bodies, context-heavy bodies (VBK tip far ahead), forks"""
@@ -520,6 +571,8 @@ class MpHistory(History):
             self.chain()
         elif name == "mixed":
             self.mixed()
+        elif name == "onchain":
+            self.onchain()
         elif name == "gen":
             self.gen(r.chance(*self.APPLY))
         elif name == "rmall":
@@ -544,14 +597,14 @@ class MpHistory(History):
                 r.choice([10, 80, 200, 600, 700, 1200, 2500, 5500000])))
             self.stat("setlim")
 
-    W = [("create", 16), ("submit", 16), ("context", 16), ("chain", 8), ("mixed", 4), ("grow", 14), ("gen", 10),
-         ("rmall", 4), ("cleanup", 8), ("clear", 2), ("reload", 0), ("limits", 2)]
+    W = [("create", 14), ("submit", 14), ("context", 14), ("chain", 8), ("mixed", 4), ("onchain", 8), ("grow", 12),
+         ("gen", 10), ("rmall", 4), ("cleanup", 8), ("clear", 2), ("reload", 0), ("limits", 2)]
     APPLY = (1, 2)
 
 
 class C12History(MpHistory):
-    W = [("create", 16), ("submit", 14), ("context", 14), ("chain", 8), ("mixed", 8), ("grow", 8), ("gen", 20),
-         ("rmall", 2), ("cleanup", 3), ("clear", 1), ("reload", 2), ("limits", 4)]
+    W = [("create", 15), ("submit", 13), ("context", 13), ("chain", 8), ("mixed", 8), ("onchain", 4), ("grow", 7),
+         ("gen", 20), ("rmall", 2), ("cleanup", 3), ("clear", 1), ("reload", 2), ("limits", 4)]
     APPLY = (4, 5)
 
 
